@@ -15,6 +15,9 @@ def seam_env():
             "NO_COLOR": "1", "HOME": "/nonexistent"}
 
 
+ENUMERATE = {"quick": (512, 4096), "thorough": (512, 65536)}
+
+
 def run_shards(focus, tier, seed, runs, directory, events=False, workers=WORKERS):
     binary = os.path.join(SIM_BIN, "sessionsim")
     procs = []
@@ -24,6 +27,8 @@ def run_shards(focus, tier, seed, runs, directory, events=False, workers=WORKERS
                 f"{shard}/{workers}", "--runs", str(runs), "--out", out]
         if events:
             argv += ["--events", "1"]
+        if focus == "C09":
+            argv += ["--enumerate3", str(ENUMERATE[tier][0]), "--enumerate4", str(ENUMERATE[tier][1])]
         procs.append((out, subprocess.Popen(argv, env=seam_env(), stdout=subprocess.PIPE, stderr=subprocess.STDOUT)))
     records = []
     for out, proc in procs:
@@ -132,6 +137,11 @@ def run(property_id, tier, seed):
         "queries_compared_with_fresh_session": total("queries"),
         "fresh_sessions_built": total("fresh_sessions"),
         "reference_graph_judgements": total("graph_judgements"),
+        "enumerated_graph_histories": total("enumerated_graph_runs"),
+        "enumerated_graph_family": ("every edge set incl. self-imports over {root.zy, a.zy, a.zyi} (512 graphs) and "
+                                    + ("every" if tier == "thorough" else "an even stride of 4096 of the 65536")
+                                    + " edge sets over {root.zy, a.zy, b.zy, a.zyi}; a.zyi adds the signature edge; one "
+                                    "fault-free history each (write files, graph of every file, analyze root)") if property_id == "C09" else "n/a",
         "inlining_equivalence_judgements": total("inline_judgements"),
         "operations_by_kind": merged("by_kind"),
         "fault_kinds_fired": merged("faults_fired"),
